@@ -61,11 +61,17 @@ def subset {α} (pool : List α) (num den : Nat) : Gen (List α) := do
     if ← chance num den then out := x :: out
   pure out.reverse
 
-def attrPool : List String := ["a", "b", "test1", "x_y", "c"]
+/-- attribute names, dictionary keys (and file names below) include 2-, 3- and 4-byte characters, long names,
+spaces and quotes: the report's column widths (runes vs bytes) and sorting depend on them -/
+def attrPool : List String :=
+  ["a", "b", "test1", "x_y", "c", "größe", "ärger", "日本語", "😀x", "with space", "it's", "say \"hi\"",
+   "a_long_attribute_name_that_goes_on_and_on_and_on", "ñ"]
 def weirdPool : List String := ["", ".x", "a", "b"]
 def keyPool : List Key :=
   [.num 1, .num 2, .num (-1), .num 10, .str (s2n "k"), .str (s2n "k2"), .str (s2n "a b"),
-   .other (s2n "(x: 3)"), .other (s2n "(y: 'q')")]
+   .other (s2n "(x: 3)"), .other (s2n "(y: 'q')"), .str (s2n "größe"), .str (s2n "ärger"), .str (s2n "ok"),
+   .str (s2n "日本"), .str (s2n "😀"), .str (s2n "it's"), .str (s2n "say \"hi\""),
+   .str (s2n "a long key that goes on and on and on and on"), .num 100]
 
 def genOffset : Gen Int := do
   let r ← rand 10
@@ -111,7 +117,7 @@ def genTree (cfg : Cfg) : Nat → Gen Tree
         let t ← genTree cfg d
         pure (.tup [(s2n "@", .leaf .other), (s2n "@item", t)])
       else
-        let names ← if cfg.weird then subset weirdPool 1 2 else subset attrPool 2 5
+        let names ← if cfg.weird then subset weirdPool 1 2 else subset attrPool 1 7
         let mut as := []
         for n in names do
           as := (s2n n, ← genTree cfg d) :: as
@@ -122,7 +128,7 @@ def genTree (cfg : Cfg) : Nat → Gen Tree
       let holes ← genList (n + 1) (chance 1 3)
       pure (.arr (← genOffset) (holesInside xs holes))
     else
-      let ks ← subset keyPool 1 4
+      let ks ← subset keyPool 1 8
       let ks := if ks.isEmpty then [Key.num 0] else ks
       let mut es := []
       for k in ks do
@@ -164,12 +170,16 @@ def printLeaf : Leaf → Gen String
 def isIdent (n : Name) : Bool :=
   !n.isEmpty && n.all (fun c => c.isAlphanum || c == '_') && !(n.head?.map Char.isDigit).getD false
 
+/-- a string literal: single quotes, double quotes when the text contains a single quote -/
+def quoteSrc (n : Name) : String :=
+  if n.contains '\'' then "\"" ++ n2s n ++ "\"" else "'" ++ n2s n ++ "'"
+
 def attrSrc (n : Name) : String :=
-  if isIdent n || n == s2n "@" || n == s2n "@item" then n2s n else "'" ++ n2s n ++ "'"
+  if isIdent n || n == s2n "@" || n == s2n "@item" then n2s n else quoteSrc n
 
 def keySrc : Key → String
   | .num i => toString i
-  | .str s => "'" ++ n2s s ++ "'"
+  | .str s => quoteSrc s
   | .other r => n2s r
 
 /-- first occurrence of every key / the remaining entries -/
@@ -251,6 +261,7 @@ a DIRECTORY is skipped iff its name starts with '.', every other name is walked.
 def testNames : List String :=
   ["a_test.arrai", "b_test.arrai", "broken_test.arrai", "m_test.arrai", "z_test.arrai", "_test.arrai", "__test.arrai",
    ".a_test.arrai", ".h_test.arrai", "x.y_test.arrai", "my test_test.arrai", "a-b_test.arrai", "é_test.arrai",
+   "größe_test.arrai", "日本語_test.arrai", "😀_test.arrai", "a_very_long_file_name_that_goes_on_and_on_and_on_test.arrai",
    "testdata_test.arrai", "_wip_test.arrai", "A_test.arrai", "a_test.arrai_test.arrai"]
 /-- file names that are not -/
 def otherNames : List String :=
@@ -283,7 +294,7 @@ def hasName (n : String) (ns : List Node) : Bool := ns.any (fun m => m.name == s
 `force`: at least one test file directly in this directory. -/
 def genDir (cfg : Cfg) (broken : Nat) (name : String) (visible : Bool) (force : Bool := false) : Nat → Gen Node
   | 0 => do
-    let tests ← subset testNames 1 11
+    let tests ← subset testNames 1 13
     let tests ← if force && tests.isEmpty then (do pure [← pick testNames]) else pure tests
     let others ← subset otherNames 1 14
     let mut out := []
@@ -295,7 +306,7 @@ def genDir (cfg : Cfg) (broken : Nat) (name : String) (visible : Bool) (force : 
       out := Node.file (s2n f) c :: out
     pure (.dir (s2n name) (sortNodes out))
   | d + 1 => do
-    let tests ← subset testNames 1 11
+    let tests ← subset testNames 1 13
     let tests ← if force && tests.isEmpty then (do pure [← pick testNames]) else pure tests
     let others ← subset otherNames 1 14
     let plain ← subset plainDirs 1 12
@@ -474,6 +485,10 @@ def corpus : List Case :=
     mk 15 (dir "t" [dir ".h" [file "a_test.arrai" lt]]) "/t/.h",
     mk 16 (dir "t" [file ".a_test.arrai" lt, file "b_test.arrai" lf]) "/t/.a_test.arrai",
     mk 17 (dir "t" [file "a_test.arrai" lt, dir "_wip" [file "w_test.arrai" lf]]) "/t/_wip",
+    -- seeded bug (round 4): report padding measured bytes against a width in runes (negative Repeat count)
+    mk 19 (dir "t" [file "a_test.arrai" (.dict [(.str (s2n "größe"), lt), (.str (s2n "ärger"), lt), (.str (s2n "ok"), lt)])]) "/t",
+    mk 20 (dir "t" [file "日本語_test.arrai" (.tup [(s2n "日本語", lt), (s2n "😀x", .arr 0 [some lt]), (s2n "ñ", lf)]),
+      dir "über" [file "größe_test.arrai" (.tup [(s2n "it's", lt), (s2n "say \"hi\"", lt)])]]) "/t",
     mk 18 (dir "t" [dir "vis" [dir ".hid" [dir "vis2" [file "a_test.arrai" lf]], file "b_test.arrai" lt]]) "/t" ]
 
 def gen (seed n : Nat) (thorough : Bool) : List Case := Id.run do
